@@ -440,10 +440,11 @@ func (op *redirOp) exec(fm *Frame, fops *[]formOwnedPort) Exception {
 	}
 
 	dstPort := growAccess(&fm.ports, dst)
-	dstFop := growAccess(fops, dst)
-	if *dstPort != nil {
-		dstFop.close(*dstPort)
-		*dstFop = formOwnedPort{File: false, Chan: false}
+	// Releases the port that is about to be replaced.
+	release := func() {
+		if *dstPort != nil {
+			releaseOwnedPort(fm, fops, dst)
+		}
 	}
 
 	if op.srcIsFd {
@@ -454,12 +455,16 @@ func (op *redirOp) exec(fm *Frame, fops *[]formOwnedPort) Exception {
 		switch {
 		case src == -1:
 			// close
+			release()
 			*dstPort = &Port{
 				// Ensure that writing to value output throws an exception
 				sendStop: closedSendStop, sendError: &ErrPortDoesNotSupportValueOutput}
 		case src >= len(fm.ports) || fm.ports[src] == nil:
 			return fm.errorp(op, InvalidFD{FD: src})
+		case src == dst:
+			// Duplicating a port onto itself is a no-op.
 		default:
+			release()
 			*dstPort = fm.ports[src]
 		}
 		return nil
@@ -468,6 +473,8 @@ func (op *redirOp) exec(fm *Frame, fops *[]formOwnedPort) Exception {
 	if err != nil {
 		return fm.errorp(op, err)
 	}
+	release()
+	dstFop := growAccess(fops, dst)
 	switch src := src.(type) {
 	case string:
 		f, err := os.OpenFile(src, op.flag, defaultFileRedirPerm)
@@ -512,6 +519,26 @@ func (op *redirOp) exec(fm *Frame, fops *[]formOwnedPort) Exception {
 		*dstPort = fileRedirPort(op.mode, srcFile)
 	}
 	return nil
+}
+
+// Called when the port at index dst is about to be replaced. If the form owns
+// the port, it is closed - unless another fd still refers to the same port (an
+// earlier duplicate, as in "cmd >a 2>&1 >b"), in which case the ownership is
+// handed over to that fd, so that the port is closed when the form finishes.
+func releaseOwnedPort(fm *Frame, fops *[]formOwnedPort, dst int) {
+	fop := *growAccess(fops, dst)
+	if !fop.File && !fop.Chan {
+		return
+	}
+	port := fm.ports[dst]
+	*growAccess(fops, dst) = formOwnedPort{File: false, Chan: false}
+	for i, p := range fm.ports {
+		if i != dst && p == port {
+			*growAccess(fops, i) = fop
+			return
+		}
+	}
+	fop.close(port)
 }
 
 // Creates a port that only have a file component, populating the
